@@ -43,6 +43,39 @@ def cases(seed, tier):
         c["script"][ci]["decisions"] = [{"do": "resume"}, {"do": "resume"}]
         c["script"][ci]["final"] = "resume"
         yield c
+    # a status fails during the half second the engine spends in the checkpoint at which the deferred pause is due;
+    # the plan copes with the FailedStatus: the pause still comes first (nothing is processed after the checkpoint,
+    # nothing is replayed after the resume), the failure reaches the plan afterwards
+    motors = [d for d, sp in base["devices"].items() if sp["kind"] in ("motor", "pmotor")]
+    if motors:
+        m = motors[0]
+        S = gen.SiteCounter("w")
+        for j in range(2):
+            guarded = [msg(S, "checkpoint"), msg(S, "null"), msg(S, "wait", None, group="gw"), msg(S, "null")]
+            plan = [
+                msg(S, "open_run"),
+                msg(S, "checkpoint"),
+                msg(S, "set", m, 9.0, group="gw"),
+                msg(S, "null"),
+                msg(S, "sleep", None, 0.05),  # (the deferred request is accepted while this sleep lasts)
+                {"op": "try", "site": S(), "body": guarded, "handlers": [{"exc": "FailedStatus", "body": [msg(S, "null")], "reraise": False}]},
+                msg(S, "null"),
+                msg(S, "sleep", None, 0.1),
+                msg(S, "checkpoint"),
+                msg(S, "close_run"),
+            ]
+            c = copy.deepcopy(base)
+            c["variant"] = f"status-fails-inside-the-checkpoint-{j}"
+            c["script"][ci]["plan"] = plan
+            for dev in c["devices"].values():
+                dev.pop("faults", None)
+            c["devices"][m]["velocity"] = 1.0
+            c["devices"][m]["faults"] = {"set#0": {"kind": "status_fail", "exc": "RuntimeError", "delay": rng.choice([0.1, 0.25, 0.4])}}
+            c["re"].pop("preprocessors", None)
+            c["script"][ci]["inject"] = [{"id": "i0", "at": {"msg": rng.choice([2, 3]), "plus": 0}, "do": "dpause"}]
+            c["script"][ci]["decisions"] = [{"do": "resume"}, {"do": "resume"}]
+            c["script"][ci]["final"] = "resume"
+            yield c
 
 
 def check(res):
